@@ -279,13 +279,20 @@ def scan():
     def bytesio_locals(fnode):
         """names of local variables that are bound ONLY to io.BytesIO() in this function"""
         good, bad = set(), set()
+        def is_bio(v):
+            return isinstance(v, ast.Call) and ast.unparse(v.func) in ("io.BytesIO", "BytesIO") and not v.args and not v.keywords
         for n in ast.walk(fnode):
+            if isinstance(n, (ast.With, ast.AsyncWith)):
+                # with io.BytesIO() as buffer:
+                for it in n.items:
+                    if isinstance(it.optional_vars, ast.Name):
+                        (good if is_bio(it.context_expr) else bad).add(it.optional_vars.id)
+            if isinstance(n, ast.AnnAssign) and isinstance(n.target, ast.Name) and n.value is not None:
+                (good if is_bio(n.value) else bad).add(n.target.id)
             if isinstance(n, ast.Assign):
                 for t in n.targets:
                     if isinstance(t, ast.Name):
-                        v = n.value
-                        is_bio = isinstance(v, ast.Call) and ast.unparse(v.func) in ("io.BytesIO", "BytesIO") and not v.args and not v.keywords
-                        (good if is_bio else bad).add(t.id)
+                        (good if is_bio(n.value) else bad).add(t.id)
         return good - bad
 
     # the archive is assembled in memory: ZipFile(<a local io.BytesIO()>, "w", ...) in _persist._save
